@@ -320,7 +320,11 @@ class Gen:
             nm = H(self.text()[:40].decode("utf-8", "ignore").encode()) or "-"
             out.append(self.case("w:create" if rl else "w:create-zero-relays",
                                  "welcome_create relays=%s name=%s" % (",".join(H(S(x)) for x in rl) or "-", nm)))
+        for rl in ([], ["wss://a.example.com"], ["ws://b.example.org:81/x", "wss://a.example.com"]):
+            out.append(self.case("w:create" if rl else "w:create-zero-relays",
+                                 "welcome_create relays=%s name=6162 via=add" % (",".join(H(S(x)) for x in rl) or "-")))
         out.append(self.case("w:content-trailing", "welcome_create relays=%s name=6162 content=trail" % H(S("wss://a.example.com"))))
+        out.append(self.case("w:content-trailing", "welcome_create relays=%s name=6162 content=trail via=add" % H(S("wss://a.example.com"))))
         return out
 
     # -- imeta
@@ -495,12 +499,14 @@ MUST_REFUSE = {
     "h:badlen": "h-tag-length-accepted", "h:nonhex": "h-tag-nonhex-accepted", "h:multiple": "h-tag-multiple-accepted",
 }
 # classes that are valid inputs and must be accepted / round-trip
+# ("w:create-zero-relays": either nothing is produced — `err create` — or what is produced must be accepted)
 MUST_ACCEPT = {"ext:valid", "ext:encode", "kp:valid", "kp:create", "kp:create-zero-relays", "w:valid", "w:create", "w:create-zero-relays",
                "im:valid", "im:create", "h:valid"}
 
 def accepted(c):
     a = c["impl"]
     if a == "panic": return False
+    if c["cls"] == "w:content-trailing": return a.endswith("verdict=ok")
     op = c["op"].split()[0]
     if op in ("ext_decode", "imeta_parse"): return a.startswith("ok")
     if op == "kp_parse": return a == "ok"
@@ -508,7 +514,7 @@ def accepted(c):
     if op == "hex_gid": return a.startswith("ok:")
     if op == "ext_encode": return a.startswith("ok ")
     if op == "kp_create": return a.endswith("parse=ok")
-    if op == "welcome_create": return a.endswith("verdict=ok")
+    if op == "welcome_create": return a.endswith("verdict=ok") or a == "err create"   # refused at creation = nothing was serialised
     if op == "imeta_create": return "parse=ok" in a
     return False
 
@@ -549,7 +555,7 @@ def oracle(cases):
             stats["roundtrips_checked"] += 1
             if a != canon_ext(c["value"]):
                 fail(c, "ext-decode-value", f"decoded value differs from the encoded one: {a[:200]}")
-        if cls in ("w:create",) and acc:
+        if cls in ("w:create",) and acc and a != "err create":
             stats["roundtrips_checked"] += 1
             if "rt=1" not in c["impl_oracle"]:
                 fail(c, "welcome-roundtrip", "the processed welcome does not carry the group data it was created with")
